@@ -261,7 +261,7 @@ def run_one(sim, params):
         finally:
             nfc.tag.tt3_sony.os, nfc.tag.tt2_nxp.os = saved_os
     kw = {"protocol_variants": False} if typ == "t4" else {}
-    if typ == "t2" and sim.chance("t2.big", 0.3):
+    if typ == "t2" and sim.chance("t2.big", 0.45):
         kw["big"] = True        # more than one sector: SECTOR SELECT is part of the operations
     case = gen.GENERATORS[typ](sim, **kw)
     if typ == "t2":
@@ -350,7 +350,8 @@ def scenario(sim, params, nfc, typ, case, fixed_os):
             positions = list(range(m))
         else:
             positions = sorted(set(list(range(6)) + list(range(m - 6, m)) +
-                                   [sim.randint("pos", 0, m - 1) for _ in range(10)]))
+                                   [sim.randint("pos", 0, m - 1) for _ in range(10)] +
+                                   [x for x in sorted(sector_select1 | sector_select) if x < m][:8]))
         plans = []
         for p in positions:
             k = sim.pick("kind", KINDS)
